@@ -29,6 +29,8 @@ TEXT = {
          "Views behind the wrapper must equal the unwrapped reference and a pure model after the initial stack and every update; errors must surface; Blank's delegation/ownership rules are checked against a small reference model. Mangler lists come from a fixed menu."),
  "C12": ("rapid property tests for both flag packages: generated struct types x template defaults x name configs x argv (subset, repeats, order, all spellings); names, advertised defaults and values by construction; result stacked between a lower and a higher layer",
          "Flag names, default strings, set/unset pattern, accumulation of repeated collection flags and range errors are predicted by harness code that never calls dials; bounded shapes, sampled."),
+ "C13": ("rapid differential test: a generated data tree rendered by the harness's own emitters into JSON, YAML, TOML and Cue, decoded by the four decoders (bare, set->slice wrapped, ez-wrapped), compared with the by-construction value and pairwise after stacking; plus type-directed single-token corruptions that must yield an error and no value",
+         "Each decoder is compared with an expected value built from the generated tree (absent key => unset) and with the other three; corruptions are drawn per leaf type and format. Types are restricted to what all four formats can spell (assumptions list the third-party limits)."),
  "C15": ("rapid round-trip and range properties over every scalar type, four collection kinds and integral slices (canonical text from the flag helpers' String()), structural integer literals (bases, '_', blanks), boundary literals judged with math/big; plus coverage-guided fuzzing of the same properties (rapid.MakeFuzz) in the thorough tier",
          "Pure functions: hundreds of thousands of generated values / literals per run; oracle is parse(canonical(v)) == v and big-integer / exact float range arithmetic independent of strconv's range handling."),
  "C19": ("rapid property tests: decode(encode(ws)) == ws for six schemes; Go identifiers assembled from words and initialisms must split into the assembly list",
